@@ -898,6 +898,22 @@ static int32_t tls13ParseHandshakeMessage(ssl_t *ssl,
     {
         goto exit;
     }
+    /* Same limit as parseSSLHandshake applies for TLS 1.2 and below: the
+       24-bit length is attacker controlled and sizes the reassembly buffer */
+    {
+# ifdef SSL_DEFAULT_IN_HS_SIZE
+        uint32_t hsLenMax = SSL_DEFAULT_IN_HS_SIZE;
+# else
+        uint32_t hsLenMax = 65536;
+# endif
+        if (hsMsgLen > hsLenMax)
+        {
+            psTraceErrr("Maximum handshake message length exceeded\n");
+            ssl->err = SSL_ALERT_DECODE_ERROR;
+            rc = MATRIXSSL_ERROR;
+            goto exit;
+        }
+    }
 # ifdef DEBUG_TLS_1_3_DECODE
     psTracePrintHandshakeHeader(type, hsMsgLen, PS_TRUE);
 # endif
